@@ -201,6 +201,19 @@ def handle : List String → String
         showNatList (sortNat ((pendDocs s.st).map (·.uid))) ++ "/abs=" ++
         showNatList (sortNat (a.pub.map (·.uid))) ++ "/abspend=" ++ showNatList (sortNat (a.pend.map (·.uid)))
     | none => "bad-op"
+  | "shuffled" :: tbl :: ss =>
+    -- the merge through an arbitrary new→old table `s:d,s:d,…` (sorted-index merges)
+    let parseAddr (t : String) : Option (Nat × Nat) :=
+      match t.splitOn ":" with
+      | [a, b] => match a.toNat?, b.toNat? with
+        | some a, some b => some (a, b)
+        | _, _ => none
+      | _ => none
+    match (if tbl == "-" then some [] else (tbl.splitOn ",").mapM parseAddr), ss.mapM parseSeg with
+    | some tbl, some segs =>
+      showLogical { docs := shuffledDocs segs tbl,
+                    terms := dropEmpty ((allKeys segs).map fun k => (k, shuffledPostings segs tbl k)) }
+    | _, _ => "bad-op"
   | "tracem" :: toks =>
     match traceRunM toks with
     | some (s, a) =>
